@@ -41,6 +41,9 @@ def elements(uid):
         'nosuch40:arg': (b'nosuchfilter_with_a_name_of_forty_bytes_:%d' % uid, True),
         'nosuch': (b'nosuch', True),
         'nosuch:arg': (b'nosuch:arg', True),
+        # blanks that belong to the argument: an ancestor of the harness is named " lead" (with the blank)
+        'xso:leading_blank_name': (b'exclude_spawns_of: lead', False),
+        'xso:same_without_blank': (b'exclude_spawns_of:lead', True),
         'only_uid:blanks': (b'only_uid:7 ,%d' % uid, True),            # blanks inside the argument: the list still contains the uid
         'exclude_uid:blanks': (b'exclude_uid:5, %d ,9' % uid, False),
         'empty': (b'', True),
@@ -63,8 +66,10 @@ def chains(tier, uid, tty):
     names = list(E)
     out = []
     maxn = 3
+    # (the four blank-related elements take part in chains of <= 2 elements only: the cube would grow by 70 % for no new interaction)
+    pairs_only = ('xso:leading_blank_name', 'xso:same_without_blank', 'only_uid:blanks', 'exclude_uid:blanks')
     for n in range(1, maxn + 1):
-        for combo in itertools.product(names, repeat=n):
+        for combo in itertools.product(names if n <= 2 else [x for x in names if x not in pairs_only], repeat=n):
             for st in ('plain', 'trailing', 'doubled', 'leading'):
                 out.append((combo, st, style([E[c][0] for c in combo], st)))
     if tier == 'thorough':
@@ -119,7 +124,7 @@ def run_state(args):
     tty = stdin == 'pty'
     E, ch = chains(tier, uid, tty)
     os.makedirs(w, exist_ok=True)
-    lines = ['forkname ' + H.hx(b'job:runner'), 'sinks pipe', 'stdin ' + stdin]
+    lines = ['forkname ' + H.hx(b' lead'), 'forkname ' + H.hx(b'job:runner'), 'sinks pipe', 'stdin ' + stdin]
     if uid == 1000:
         lines.append('errno 34')       # the caller's ambient errno (ERANGE) must not influence any filter decision
     if uid != 0:
